@@ -1,13 +1,21 @@
 /-
 C13 — descriptive accessors and the triangle taxonomy agree with the cells.
-Only property theorems live here (helper lemmas: `Lemmas/Accessors.lean`, `Lemmas/Select.lean`).
+Sections: 1 accessors, 2 counts, 3 nesting, 4 `_multi_gcd`, 5 experience_gaps (as the code reads), 6 is_disjoint,
+7 common metadata / differences, evaluation_date, num_samples, taxonomy = independent definitions, 8 non-vacuity,
+slicewise / rows, 9 resolutions from the cells (sign, definedness, largest, the one-month quirk of
+eval_date_resolution), 10 Spec bridges (every predicate the driver evaluates on the implementation holds on the
+model), 11 experience_gaps on disjoint triangles (non-empty, uncovered, complete; inverted range on overlap),
+12 calendar meaning of month lengths, 13 more non-vacuity.
+Only property theorems live here (helper lemmas: `Lemmas/Accessors.lean`, `Lemmas/AccessorsHelpers.lean`,
+`Lemmas/AccessorsExt.lean`, `Lemmas/Select.lean`).
 -/
 import Bermuda.Model.Accessors
 import Bermuda.Spec.C13
 import Bermuda.Lemmas.Accessors
 import Bermuda.Lemmas.AccessorsExt
+import Bermuda.Lemmas.AccessorsHelpers
 namespace Bermuda.Properties.C13
-open Bermuda Std Bermuda.Spec.C13
+open Bermuda Std Bermuda.Spec.C13 Bermuda.C13L
 
 /-! ### 1. the accessors are the sorted distinct values present in the cells -/
 
@@ -101,7 +109,8 @@ theorem semiRegular_imp_disjoint (t : List Cell) (u : Option LagUnit)
 
 /-! ### 4. resolutions -/
 
-/-- the value of `_multi_gcd` divides every member -/
+/-- the value of `_multi_gcd` divides every member (a fact about `_multi_gcd` only; the accessor-level statements
+are `periodResolution_largest` and `evalDateResolution_spec`) -/
 theorem resolution_dvd_all {xs : List Int} {r : Int} (h : multiGcd xs = .ok r) :
     ∀ x ∈ xs, r ∣ x := by
   intro x hx
@@ -141,7 +150,8 @@ theorem resolution_greatest {xs : List Int} {r : Int} (h : multiGcd xs = .ok r)
     exact dvd_foldl_gcd rest _ d (Int.dvd_coe_gcd (hd' a (by simp)) (hd' b (by simp)))
       (fun x hx => hd' x (by simp [hx]))
 
-/-- the month boundaries whose gaps `period_resolution` divides -/
+/-- the MODEL's expression for the gaps `period_resolution` divides (sorted set over `periods`); the statement
+from the cells is `periodMonthGaps` below, `periodBoundaryGaps_eq_cells` proves them equal -/
 def periodBoundaryGaps (t : List Cell) : List Int :=
   diffs (sortedDedup intCmp
     ((Triangle.periods t).map (fun p => monthToId p.1) ++ (Triangle.periods t).map (fun p => monthToId p.2 + 1)))
@@ -189,19 +199,6 @@ theorem experienceGaps_spec (t : List Cell) (g : Period) :
     simp [hne]
 
 /-! ### 6. is_disjoint: the adjacent test is complete -/
-
-theorem pairwise_forall_of_symm {α} {R : α → α → Prop} {l : List α} (hs : ∀ x y, R x y → R y x)
-    (h : l.Pairwise R) : ∀ a ∈ l, ∀ b ∈ l, a ≠ b → R a b := by
-  induction l with
-  | nil => simp
-  | cons x l ih =>
-    have h' := List.pairwise_cons.mp h
-    intro a ha b hb hab
-    rcases List.mem_cons.mp ha with e1 | ha' <;> rcases List.mem_cons.mp hb with e2 | hb'
-    · exact absurd (e1.trans e2.symm) hab
-    · exact e1 ▸ h'.1 b hb'
-    · exact e2 ▸ hs _ _ (h'.1 a ha')
-    · exact ih h'.2 a ha' b hb' hab
 
 /-- **`is_disjoint` (an adjacent-pairs test on the sorted periods) holds iff no two different
 periods of the triangle overlap** — for cells whose periods are proper intervals
@@ -265,46 +262,6 @@ theorem isDisjoint_eq_spec (t : List Cell) (hv : ∀ c ∈ t, c.ps ≤ c.pe) :
 
 /-! ### 7. common metadata and differences -/
 
-theorem firstIfEqual_eq_some {α} [BEq α] [LawfulBEq α] {a b : Option α} {x : α} :
-    firstIfEqual a b = some x ↔ a = some x ∧ b = some x := by
-  unfold firstIfEqual
-  by_cases h : a = b
-  · subst h; simp
-  · have : (a == b) = false := by simpa using h
-    simp only [this, Bool.false_eq_true, if_false]
-    constructor
-    · intro h'; cases h'
-    · rintro ⟨rfl, rfl⟩; exact absurd rfl h
-
-theorem foldl_common_attr {α} [BEq α] [LawfulBEq α] (get : Metadata → Option α)
-    (hget : ∀ a b, get (commonMetadata₂ a b) = firstIfEqual (get a) (get b))
-    (rest : List Metadata) (m : Metadata) (x : α) :
-    get (rest.foldl commonMetadata₂ m) = some x ↔ get m = some x ∧ ∀ m' ∈ rest, get m' = some x := by
-  induction rest generalizing m with
-  | nil => simp
-  | cons m' rest ih =>
-    simp only [List.foldl_cons]
-    rw [ih, hget, firstIfEqual_eq_some]
-    simp only [List.mem_cons, forall_eq_or_imp]
-    exact and_assoc
-
-theorem commonMetadata_eq_fold {t : List Cell} {c : Metadata} (h : Triangle.commonMetadata t = .ok c) :
-    ∃ m rest, Triangle.metadata t = m :: rest ∧ c = rest.foldl commonMetadata₂ m := by
-  unfold Triangle.commonMetadata at h
-  split at h
-  · cases h
-  · rename_i m hm; cases h; exact ⟨_, [], hm, rfl⟩
-  · rename_i m rest _ hm; cases h; exact ⟨_, _, hm, rfl⟩
-
-/-- an attribute is kept by `common_metadata` with value `x` iff every slice has it with value `x` -/
-theorem common_attr_iff {α} [BEq α] [LawfulBEq α] (get : Metadata → Option α)
-    (hget : ∀ a b, get (commonMetadata₂ a b) = firstIfEqual (get a) (get b))
-    {t : List Cell} {c : Metadata} (h : Triangle.commonMetadata t = .ok c) (x : α) :
-    get c = some x ↔ ∀ m ∈ Triangle.metadata t, get m = some x := by
-  obtain ⟨m, rest, hm, rfl⟩ := commonMetadata_eq_fold h
-  rw [foldl_common_attr get hget, hm]
-  simp only [List.mem_cons, forall_eq_or_imp]
-
 /-- **common metadata keeps exactly what all slices share** — the six top-level attributes:
 each is kept with value `x` iff every slice's metadata has value `x` (so an attribute on which
 two slices differ, or which is `None` everywhere, is `None`). The detail dictionaries follow in
@@ -320,72 +277,6 @@ theorem common_keeps_exactly_shared_attrs {t : List Cell} {c : Metadata}
   ⟨common_attr_iff (·.riskBasis) (fun _ _ => rfl) h, common_attr_iff (·.country) (fun _ _ => rfl) h,
    common_attr_iff (·.currency) (fun _ _ => rfl) h, common_attr_iff (·.reinsuranceBasis) (fun _ _ => rfl) h,
    common_attr_iff (·.lossDefinition) (fun _ _ => rfl) h, common_attr_iff (·.limit) (fun _ _ => rfl) h⟩
-
-/-- the keys of a dict are distinct (always true of a Python dict) -/
-def KeysDistinct (d : Dict MVal) : Prop := d.Pairwise (fun a b => a.1 ≠ b.1)
-
-theorem get?_eq_some_iff {d : Dict MVal} (hd : KeysDistinct d) (k : String) (v : MVal) :
-    d.get? k = some v ↔ (k, v) ∈ d := by
-  induction d with
-  | nil => simp [Dict.get?]
-  | cons p rest ih =>
-    obtain ⟨k', v'⟩ := p
-    have hd' := List.pairwise_cons.mp hd
-    have ih := ih hd'.2
-    unfold Dict.get? at ih ⊢
-    by_cases hk : k' = k
-    · subst hk
-      simp only [List.find?_cons, beq_self_eq_true, Option.map_some, Option.some.injEq,
-        List.mem_cons, Prod.mk.injEq, true_and]
-      constructor
-      · intro h; exact Or.inl h.symm
-      · rintro (h | h)
-        · exact h.symm
-        · exact absurd rfl (hd'.1 (k', v) h)
-    · have : (k' == k) = false := by simpa using hk
-      simp only [List.find?_cons, this, List.mem_cons, Prod.mk.injEq]
-      rw [ih]
-      constructor
-      · intro h; exact Or.inr h
-      · rintro (⟨h, _⟩ | h)
-        · exact absurd h.symm hk
-        · exact h
-
-theorem foldl_common_details (rest : List Metadata) (m : Metadata)
-    (hk : ∀ m' ∈ rest, KeysDistinct m'.details) (kv : String × MVal) :
-    kv ∈ (rest.foldl commonMetadata₂ m).details ↔ kv ∈ m.details ∧ ∀ m' ∈ rest, kv ∈ m'.details := by
-  induction rest generalizing m with
-  | nil => simp
-  | cons m' rest ih =>
-    simp only [List.foldl_cons]
-    rw [ih _ (fun x hx => hk x (by simp [hx]))]
-    have : kv ∈ (commonMetadata₂ m m').details ↔ kv ∈ m.details ∧ kv ∈ m'.details := by
-      show kv ∈ m.details.filter (fun kv => m'.details.get? kv.1 == some kv.2) ↔ _
-      rw [List.mem_filter, beq_iff_eq, get?_eq_some_iff (hk m' (by simp))]
-    rw [this]
-    simp only [List.mem_cons, forall_eq_or_imp]
-    exact and_assoc
-
-theorem foldl_common_lossDetails (rest : List Metadata) (m : Metadata)
-    (hm : KeysDistinct m.lossDetails) (hk : ∀ m' ∈ rest, KeysDistinct m'.lossDetails)
-    (kv : String × MVal) :
-    kv ∈ (rest.foldl commonMetadata₂ m).lossDetails ↔
-      kv ∈ m.lossDetails ∧ ∀ m' ∈ rest, kv ∈ m'.lossDetails := by
-  induction rest generalizing m with
-  | nil => simp
-  | cons m' rest ih =>
-    simp only [List.foldl_cons]
-    have hstep : (commonMetadata₂ m m').lossDetails =
-        m'.lossDetails.filter (fun kv => m.lossDetails.get? kv.1 == some kv.2) := rfl
-    have hkd : KeysDistinct (commonMetadata₂ m m').lossDetails := by
-      rw [hstep]; exact (hk m' (by simp)).sublist List.filter_sublist
-    rw [ih _ hkd (fun x hx => hk x (by simp [hx]))]
-    have : kv ∈ (commonMetadata₂ m m').lossDetails ↔ kv ∈ m.lossDetails ∧ kv ∈ m'.lossDetails := by
-      rw [hstep, List.mem_filter, beq_iff_eq, get?_eq_some_iff hm]
-      exact And.comm
-    rw [this]
-    simp only [List.mem_cons, forall_eq_or_imp]
-    exact and_assoc
 
 /-- **common metadata keeps exactly what all slices share** — the detail dictionaries: an item
 `(key, value)` is kept iff every slice's metadata has that item -/
@@ -421,15 +312,6 @@ theorem common_keeps_exactly_shared {t : List Cell} {c : Metadata}
     (∀ kv, kv ∈ c.lossDetails ↔ ∀ m ∈ Triangle.metadata t, kv ∈ m.lossDetails) :=
   ⟨common_keeps_exactly_shared_attrs h, common_keeps_exactly_shared_details h hk⟩
 
-theorem recombine_attr {α} [BEq α] [LawfulBEq α] (get : Metadata → Option α)
-    (hget : ∀ a b, get (commonMetadata₂ a b) = firstIfEqual (get a) (get b))
-    {t : List Cell} {c : Metadata} (h : Triangle.commonMetadata t = .ok c)
-    {m : Metadata} (hm : m ∈ Triangle.metadata t) :
-    (get c).or (if (get c).isNone then get m else none) = get m := by
-  cases hc : get c with
-  | none => simp
-  | some x => simp [(common_attr_iff get hget h x).mp hc m hm]
-
 /-- **common metadata recombines with each entry of `metadata_differences` into that slice's
 metadata** — the six top-level attributes (the detail dicts: `recombine_diff_details`; the full
 statement: `recombine_diff`). -/
@@ -441,23 +323,6 @@ theorem recombine_diff_attrs {t : List Cell} {c : Metadata} (h : Triangle.common
   ⟨recombine_attr (·.riskBasis) (fun _ _ => rfl) h hm, recombine_attr (·.country) (fun _ _ => rfl) h hm,
    recombine_attr (·.currency) (fun _ _ => rfl) h hm, recombine_attr (·.reinsuranceBasis) (fun _ _ => rfl) h hm,
    recombine_attr (·.lossDefinition) (fun _ _ => rfl) h hm, recombine_attr (·.limit) (fun _ _ => rfl) h hm⟩
-
-theorem keysDistinct_unique {d : Dict MVal} (hd : KeysDistinct d) {k : String} {v v' : MVal}
-    (h : (k, v) ∈ d) (h' : (k, v') ∈ d) : v = v' := by
-  have h1 := (get?_eq_some_iff hd k v).mpr h
-  have h2 := (get?_eq_some_iff hd k v').mpr h'
-  rw [h1] at h2
-  exact Option.some.inj h2
-
-theorem contains_iff {d : Dict MVal} {k : String} : d.contains k = true ↔ ∃ v, (k, v) ∈ d := by
-  unfold Dict.contains
-  rw [List.any_eq_true]
-  constructor
-  · rintro ⟨⟨k', v⟩, hm, hk⟩
-    have : k' = k := by simpa using hk
-    exact ⟨v, this ▸ hm⟩
-  · rintro ⟨v, hm⟩
-    exact ⟨(k, v), hm, by simp⟩
 
 /-- **the detail dictionaries recombine**: the items of the common metadata together with the
 items of a slice's difference are exactly the items of that slice's metadata, and the two parts
@@ -495,59 +360,6 @@ theorem recombine_diff_details {t : List Cell} {c : Metadata} (h : Triangle.comm
     have := (List.mem_filter.mp hkv).2
     simpa using this
 
-theorem keysDistinct_of_canon {d : Dict MVal} (h : DictCanon d) : KeysDistinct d := by
-  refine h.imp ?_
-  intro a b hab e
-  rw [e] at hab
-  simp at hab
-
-theorem keysDistinct_nodup {d : Dict MVal} (h : KeysDistinct d) : d.Nodup :=
-  h.imp (fun {a b} hab e => hab (by rw [e]))
-
-/-- the common metadata's detail dicts have distinct keys when all slices' dicts do -/
-theorem foldl_common_keysDistinct (rest : List Metadata) (m : Metadata)
-    (hm : KeysDistinct m.details ∧ KeysDistinct m.lossDetails)
-    (hk : ∀ m' ∈ rest, KeysDistinct m'.lossDetails) :
-    KeysDistinct (rest.foldl commonMetadata₂ m).details ∧
-    KeysDistinct (rest.foldl commonMetadata₂ m).lossDetails := by
-  induction rest generalizing m with
-  | nil => exact hm
-  | cons m' rest ih =>
-    simp only [List.foldl_cons]
-    apply ih
-    · constructor
-      · show KeysDistinct (m.details.filter _)
-        exact hm.1.sublist List.filter_sublist
-      · show KeysDistinct (m'.lossDetails.filter _)
-        exact (hk m' (by simp)).sublist List.filter_sublist
-    · intro x hx; exact hk x (by simp [hx])
-
-/-- a key-sorted dict is determined by its items: sorting `common ++ difference` gives back the
-slice's (canonical) dict -/
-theorem sortItems_recombine {cd dd md : Dict MVal} (hcd : KeysDistinct cd) (hdd : dd.Nodup)
-    (hdisj : ∀ kv ∈ dd, cd.contains kv.1 = false) (hmd : DictCanon md)
-    (hmem : ∀ kv, kv ∈ cd ++ dd ↔ kv ∈ md) : sortItems (cd ++ dd) = md := by
-  have hnd : (cd ++ dd).Nodup := by
-    rw [List.nodup_append]
-    refine ⟨keysDistinct_nodup hcd, hdd, ?_⟩
-    intro x hx y hy e
-    have := hdisj y hy
-    rw [← e] at this
-    have h2 : cd.contains x.1 = true := contains_iff.mpr ⟨x.2, hx⟩
-    rw [h2] at this; cases this
-  have hp : (cd ++ dd).Perm md :=
-    (List.perm_ext_iff_of_nodup hnd (keysDistinct_nodup (keysDistinct_of_canon hmd))).mpr hmem
-  have := mergeSort_perm_invariant (cmp := itemCmp) hp (fun a b _ _ h => itemCmp_eq_eq.mp h)
-  have h2 : sortItems md = md := sortItems_of_canon hmd
-  unfold sortItems at h2 ⊢
-  exact this.trans h2
-
-theorem Metadata.ext_fields {a b : Metadata} (h1 : a.riskBasis = b.riskBasis) (h2 : a.country = b.country)
-    (h3 : a.currency = b.currency) (h4 : a.reinsuranceBasis = b.reinsuranceBasis)
-    (h5 : a.lossDefinition = b.lossDefinition) (h6 : a.limit = b.limit)
-    (h7 : a.details = b.details) (h8 : a.lossDetails = b.lossDetails) : a = b := by
-  cases a; cases b; simp_all
-
 /-- **common metadata recombines with each entry of `metadata_differences` into that slice's
 metadata** (canonical metadata: detail dicts key-sorted, as the wire form and `Metadata.__eq__`
 see them) -/
@@ -562,7 +374,7 @@ theorem recombine_diff {t : List Cell} {c : Metadata} (h : Triangle.commonMetada
     obtain ⟨m0, rest, hm0, rfl⟩ := commonMetadata_eq_fold h
     refine foldl_common_keysDistinct rest m0 (hk m0 (by rw [hm0]; simp)) ?_
     intro x hx; exact (hk x (by rw [hm0]; simp [hx])).2
-  refine Metadata.ext_fields a1 a2 a3 a4 a5 a6 ?_ ?_
+  refine metadata_ext_fields a1 a2 a3 a4 a5 a6 ?_ ?_
   · show sortItems (c.details ++ (metadataDiff c m).details) = m.details
     refine sortItems_recombine hcd.1 ?_ d3 (hc m hm).1 d1
     show (m.details.filter _).Nodup
@@ -585,58 +397,6 @@ theorem metadataDifferences_length {t : List Cell} {ds : List Metadata}
 
 /-! ### evaluation_date -/
 
-def maxDateStepC13 (acc : Option Date) (d : Date) : Option Date :=
-  match acc with
-  | none => some d
-  | some m => if m < d then some d else some m
-
-theorem maxDate_foldl_some (l : List Date) (m : Date) :
-    ∃ d, l.foldl maxDateStepC13 (some m) = some d ∧ (d = m ∨ d ∈ l) ∧ m ≤ d ∧ ∀ x ∈ l, x ≤ d := by
-  induction l generalizing m with
-  | nil => exact ⟨m, rfl, Or.inl rfl, Date.le_refl m, by simp⟩
-  | cons x l ih =>
-    simp only [List.foldl_cons, maxDateStepC13]
-    by_cases hx : m < x
-    · simp only [hx, if_true]
-      obtain ⟨d, h1, h2, h3, h4⟩ := ih x
-      have hmx : m ≤ x := by
-        have := hx; rw [Date.lt_iff_sel] at this; rw [Date.le_iff]; omega
-      refine ⟨d, h1, ?_, Date.le_trans hmx h3, ?_⟩
-      · rcases h2 with rfl | h2
-        · exact Or.inr (by simp)
-        · exact Or.inr (by simp [h2])
-      · intro y hy
-        rcases List.mem_cons.mp hy with rfl | hy
-        · exact h3
-        · exact h4 y hy
-    · simp only [hx, if_false]
-      obtain ⟨d, h1, h2, h3, h4⟩ := ih m
-      have hxm : x ≤ m := by
-        rw [Date.lt_iff_sel] at hx; rw [Date.le_iff]; omega
-      refine ⟨d, h1, ?_, h3, ?_⟩
-      · rcases h2 with rfl | h2
-        · exact Or.inl rfl
-        · exact Or.inr (by simp [h2])
-      · intro y hy
-        rcases List.mem_cons.mp hy with rfl | hy
-        · exact Date.le_trans hxm h3
-        · exact h4 y hy
-
-theorem maxDate_spec {l : List Date} (hl : l ≠ []) :
-    ∃ d, maxDate l = some d ∧ d ∈ l ∧ ∀ x ∈ l, x ≤ d := by
-  cases l with
-  | nil => exact absurd rfl hl
-  | cons a l =>
-    obtain ⟨d, h1, h2, h3, h4⟩ := maxDate_foldl_some l a
-    refine ⟨d, h1, ?_, ?_⟩
-    · rcases h2 with rfl | h2
-      · simp
-      · simp [h2]
-    · intro x hx
-      rcases List.mem_cons.mp hx with rfl | hx
-      · exact h3
-      · exact h4 x hx
-
 /-- **`evaluation_date`** is refused (`TriangleEmptyError`) on the empty triangle and otherwise
 is the latest evaluation date present in the cells -/
 theorem evaluationDate_spec (t : List Cell) :
@@ -657,97 +417,6 @@ theorem evaluationDate_spec (t : List Cell) :
     simp [this, h1]
 
 /-! ### num_samples -/
-
-theorem numSamples_fold_some (vs : List Val) (k : Nat)
-    (h : ∀ v ∈ vs, ∀ n, v.sampleSize = some n → n = k) :
-    vs.foldlM numSamplesStep (some k) = .ok (some k) := by
-  induction vs with
-  | nil => rfl
-  | cons v vs ih =>
-    rw [List.foldlM_cons]
-    have ih := ih (fun w hw => h w (by simp [hw]))
-    cases hs : v.sampleSize with
-    | none => simp [numSamplesStep, hs, bind, Except.bind, ih]
-    | some n =>
-      have : n = k := h v (by simp) n hs
-      subst this
-      simp [numSamplesStep, hs, bind, Except.bind, ih]
-
-theorem numSamples_fold_none (vs : List Val) (k : Nat)
-    (h : ∀ v ∈ vs, ∀ n, v.sampleSize = some n → n = k) :
-    vs.foldlM numSamplesStep none =
-      .ok (if vs.any (fun v => v.sampleSize.isSome) then some k else none) := by
-  induction vs with
-  | nil => rfl
-  | cons v vs ih =>
-    rw [List.foldlM_cons]
-    have ih := ih (fun w hw => h w (by simp [hw]))
-    cases hs : v.sampleSize with
-    | none => simp [numSamplesStep, hs, bind, Except.bind, ih]
-    | some n =>
-      have : n = k := h v (by simp) n hs
-      subst this
-      simp [numSamplesStep, hs, bind, Except.bind,
-        numSamples_fold_some vs n (fun w hw => h w (by simp [hw]))]
-
-theorem numSamples_fold_some_error (vs : List Val) (k : Nat)
-    (h : ∃ v ∈ vs, ∃ n, v.sampleSize = some n ∧ n ≠ k) :
-    vs.foldlM numSamplesStep (some k) = .error .valueError := by
-  induction vs with
-  | nil => obtain ⟨v, hv, _⟩ := h; simp at hv
-  | cons v vs ih =>
-    rw [List.foldlM_cons]
-    cases hs : v.sampleSize with
-    | none =>
-      have : ∃ w ∈ vs, ∃ n, w.sampleSize = some n ∧ n ≠ k := by
-        obtain ⟨w, hw, n, hn, hne⟩ := h
-        rcases List.mem_cons.mp hw with rfl | hw
-        · rw [hs] at hn; cases hn
-        · exact ⟨w, hw, n, hn, hne⟩
-      simp [numSamplesStep, hs, bind, Except.bind, ih this]
-    | some n =>
-      by_cases hn : n = k
-      · subst hn
-        have : ∃ w ∈ vs, ∃ n', w.sampleSize = some n' ∧ n' ≠ n := by
-          obtain ⟨w, hw, n', hn', hne⟩ := h
-          rcases List.mem_cons.mp hw with rfl | hw
-          · rw [hs] at hn'; cases hn'; exact absurd rfl hne
-          · exact ⟨w, hw, n', hn', hne⟩
-        simp [numSamplesStep, hs, bind, Except.bind, ih this]
-      · have : (k != n) = true := by simp; exact fun e => hn e.symm
-        simp [numSamplesStep, hs, bind, Except.bind, this]
-
-theorem numSamples_fold_none_error (vs : List Val)
-    (h : ∃ v ∈ vs, ∃ w ∈ vs, ∃ n n', v.sampleSize = some n ∧ w.sampleSize = some n' ∧ n ≠ n') :
-    vs.foldlM numSamplesStep none = .error .valueError := by
-  induction vs with
-  | nil => obtain ⟨v, hv, _⟩ := h; simp at hv
-  | cons x vs ih =>
-    rw [List.foldlM_cons]
-    obtain ⟨v, hv, w, hw, n, n', hn, hn', hne⟩ := h
-    cases hs : x.sampleSize with
-    | none =>
-      have hv' : v ∈ vs := by
-        rcases List.mem_cons.mp hv with rfl | hv
-        · rw [hs] at hn; cases hn
-        · exact hv
-      have hw' : w ∈ vs := by
-        rcases List.mem_cons.mp hw with rfl | hw
-        · rw [hs] at hn'; cases hn'
-        · exact hw
-      simp [numSamplesStep, hs, bind, Except.bind, ih ⟨v, hv', w, hw', n, n', hn, hn', hne⟩]
-    | some k =>
-      have : ∃ y ∈ vs, ∃ j, y.sampleSize = some j ∧ j ≠ k := by
-        by_cases hk : n = k
-        · refine ⟨w, ?_, n', hn', fun e => hne (hk.trans e.symm)⟩
-          rcases List.mem_cons.mp hw with rfl | hw
-          · rw [hs] at hn'; cases hn'; exact absurd hk hne
-          · exact hw
-        · refine ⟨v, ?_, n, hn, hk⟩
-          rcases List.mem_cons.mp hv with rfl | hv
-          · rw [hs] at hn; cases hn; exact absurd rfl hk
-          · exact hv
-      simp [numSamplesStep, hs, bind, Except.bind, numSamples_fold_some_error vs k this]
 
 /-- all cell values of the triangle, in iteration order -/
 def allValues (t : List Cell) : List Val := t.flatMap fun c => c.values.map (·.2)
@@ -776,14 +445,6 @@ theorem numSamples_spec (t : List Cell) :
 
 
 /-! ### the taxonomy agrees with the independent definitions -/
-
-theorem duration_eq_iff (u : LagUnit) (a b : Cell) :
-    duration u a = duration u b ↔ periodLength u a.period = periodLength u b.period := by
-  cases u
-  · exact Iff.rfl
-  all_goals
-    simp only [duration, periodLength, Cell.period, Rat.intCast_inj]
-    omega
 
 /-- **`is_semi_regular` ⇔ disjoint and all periods of equal length** (the independent,
 pairwise-over-cells definition `Spec.C13.semiRegular`) -/
@@ -823,138 +484,6 @@ theorem isSemiRegular_iff_equal_lengths (t : List Cell) (u : LagUnit) (hv : ∀ 
           obtain ⟨b, hb, hbe⟩ := (hmem base).mp (hp ▸ List.mem_cons_self)
           rw [← hbe]; exact h a ha b hb
 
-theorem ratCmp_lt_iff (a b : Rat) : ratCmp a b = .lt ↔ a < b := by
-  unfold ratCmp compareOfLessAndEq
-  split
-  · simp_all
-  · split <;> simp_all
-
-/-- consecutive differences all equal `d` -/
-def constDiffC13 (d : Rat) : List Rat → Prop
-  | a :: b :: r => b - a = d ∧ constDiffC13 d (b :: r)
-  | _ => True
-
-/-- the documented "constant lag spacing" over a set of lags: neighbouring lags (no lag strictly
-in between) are equally far apart -/
-def SpacedC13 (S : Rat → Prop) : Prop :=
-  ∀ x y z, S x → S y → S z → x < y → y < z →
-    (∀ w, S w → ¬ (x < w ∧ w < y)) → (∀ w, S w → ¬ (y < w ∧ w < z)) → y - x = z - y
-
-theorem spaced_cons (a b c : Rat) (r : List Rat) (hs : (a :: b :: c :: r).Pairwise (· < ·)) :
-    SpacedC13 (· ∈ a :: b :: c :: r) ↔ (b - a = c - b) ∧ SpacedC13 (· ∈ b :: c :: r) := by
-  have h1 := List.pairwise_cons.mp hs
-  have h2 := List.pairwise_cons.mp h1.2
-  have h3 := List.pairwise_cons.mp h2.2
-  have hab : a < b := h1.1 b (by simp)
-  have hbc : b < c := h2.1 c (by simp)
-  constructor
-  · intro h
-    constructor
-    · refine h a b c (by simp) (by simp) (by simp) hab hbc ?_ ?_
-      · intro w hw ⟨h5, h6⟩
-        rcases List.mem_cons.mp hw with rfl | hw
-        · grind
-        · rcases List.mem_cons.mp hw with rfl | hw
-          · grind
-          · have := h2.1 w hw; grind
-      · intro w hw ⟨h5, h6⟩
-        rcases List.mem_cons.mp hw with rfl | hw
-        · grind
-        · rcases List.mem_cons.mp hw with rfl | hw
-          · grind
-          · rcases List.mem_cons.mp hw with rfl | hw
-            · grind
-            · have := h3.1 w hw; grind
-    · intro x y z hx hy hz hxy hyz n1 n2
-      refine h x y z (List.mem_cons_of_mem _ hx) (List.mem_cons_of_mem _ hy) (List.mem_cons_of_mem _ hz)
-        hxy hyz ?_ ?_
-      · intro w hw ⟨h5, h6⟩
-        rcases List.mem_cons.mp hw with rfl | hw
-        · have := h1.1 x hx; grind
-        · exact n1 w hw ⟨h5, h6⟩
-      · intro w hw ⟨h5, h6⟩
-        rcases List.mem_cons.mp hw with rfl | hw
-        · have := h1.1 y hy; grind
-        · exact n2 w hw ⟨h5, h6⟩
-  · rintro ⟨hd, h⟩ x y z hx hy hz hxy hyz n1 n2
-    rcases List.mem_cons.mp hx with rfl | hx
-    · -- x = a: then y = b and z = c
-      have hy' : y ∈ b :: c :: r := by
-        rcases List.mem_cons.mp hy with rfl | hy
-        · grind
-        · exact hy
-      have hyb : y = b := by
-        rcases List.mem_cons.mp hy' with e | hy''
-        · exact e
-        · have := h2.1 y hy''
-          exact absurd ⟨hab, this⟩ (n1 b (by simp))
-      subst hyb
-      have hz' : z ∈ c :: r := by
-        rcases List.mem_cons.mp hz with rfl | hz
-        · grind
-        · rcases List.mem_cons.mp hz with rfl | hz
-          · grind
-          · exact hz
-      have hzc : z = c := by
-        rcases List.mem_cons.mp hz' with e | hz''
-        · exact e
-        · have := h3.1 z hz''
-          exact absurd ⟨hbc, this⟩ (n2 c (by simp))
-      subst hzc
-      exact hd
-    · have hax := h1.1 x hx
-      have hy' : y ∈ b :: c :: r := by
-        rcases List.mem_cons.mp hy with rfl | hy
-        · grind
-        · exact hy
-      have hz' : z ∈ b :: c :: r := by
-        rcases List.mem_cons.mp hz with rfl | hz
-        · grind
-        · exact hz
-      exact h x y z hx hy' hz' hxy hyz (fun w hw => n1 w (List.mem_cons_of_mem _ hw))
-        (fun w hw => n2 w (List.mem_cons_of_mem _ hw))
-
-theorem spaced_iff_constDiff (a b : Rat) (r : List Rat) (hs : (a :: b :: r).Pairwise (· < ·)) :
-    SpacedC13 (· ∈ a :: b :: r) ↔ constDiffC13 (b - a) (b :: r) := by
-  induction r generalizing a b with
-  | nil =>
-    simp only [constDiffC13, iff_true]
-    intro x y z hx hy hz hxy hyz _ _
-    simp only [List.mem_cons, List.not_mem_nil, or_false] at hx hy hz
-    grind
-  | cons c r ih =>
-    rw [spaced_cons a b c r hs, ih b c (List.pairwise_cons.mp hs).2]
-    simp only [constDiffC13]
-    constructor
-    · rintro ⟨h1, h2⟩
-      refine ⟨h1.symm, ?_⟩
-      rw [h1]; exact h2
-    · rintro ⟨h1, h2⟩
-      refine ⟨h1.symm, ?_⟩
-      rw [h1]; exact h2
-
-theorem zip_all_iff_constDiff (d : Rat) (l1 : Rat) (rest : List Rat) :
-    (((l1 :: rest).zip rest).all fun (pn : Rat × Rat) => pn.2 - pn.1 == d) = true ↔
-      constDiffC13 d (l1 :: rest) := by
-  induction rest generalizing l1 with
-  | nil => simp [constDiffC13]
-  | cons x rest ih =>
-    simp only [List.zip_cons_cons, List.all_cons, Bool.and_eq_true, beq_iff_eq, constDiffC13]
-    rw [ih x]
-
-theorem noneBetween_iff (L : List Rat) (x y : Rat) :
-    (L.all fun w => !(decide (x < w) && decide (w < y))) = true ↔ ∀ w ∈ L, ¬ (x < w ∧ w < y) := by
-  simp only [List.all_eq_true, Bool.not_eq_true', Bool.and_eq_false_iff, decide_eq_false_iff_not]
-  constructor
-  · intro h w hw ⟨h1, h2⟩
-    rcases h w hw with h' | h'
-    · exact h' h1
-    · exact h' h2
-  · intro h w hw
-    by_cases h1 : x < w
-    · exact Or.inr (fun h2 => h w hw ⟨h1, h2⟩)
-    · exact Or.inl h1
-
 theorem constSpacing_iff (t : List Cell) (u : LagUnit) :
     constSpacing t u = true ↔ SpacedC13 (· ∈ t.map (·.devLag u)) := by
   simp only [constSpacing, List.all_eq_true]
@@ -980,10 +509,6 @@ theorem constSpacing_iff (t : List Cell) (u : LagUnit) :
       have := h x y z (List.mem_eraseDups.mp hx) (List.mem_eraseDups.mp hy) (List.mem_eraseDups.mp hz)
         hxy hyz (fun w hw => n1 w (List.mem_eraseDups.mpr hw)) (fun w hw => n2 w (List.mem_eraseDups.mpr hw))
       simp [this]
-
-theorem spaced_congr {S S' : Rat → Prop} (h : ∀ x, S x ↔ S' x) : SpacedC13 S ↔ SpacedC13 S' := by
-  have : S = S' := funext fun x => propext (h x)
-  rw [this]
 
 /-- **`is_regular` ⇔ semi-regular and constant lag spacing** (the independent definition
 `Spec.C13.regular`: neighbouring development lags are equally far apart) -/
@@ -1134,5 +659,850 @@ example :
                       md := { country := some "US" } }
     slicewiseDisjoint [a, b] = true ∧ disjoint [a, b] = false ∧
       slicewiseDisjoint [a, { b with md := {} }] = false := by decide +kernel
+
+/-! ### 9. resolutions: gaps stated from the cells, sign, definedness, "largest" -/
+
+/-- **the gaps between period boundaries, from the CELLS**: month id of every cell's period start and month id
+after every cell's period end, distinct values ascending, consecutive differences (`Spec.C13.gapsOf … true` of
+`Spec.C13.periodBoundaries` — the expression the driver evaluates on the implementation's answer) -/
+def periodMonthGaps (t : List Cell) : List Int := gapsOf (periodBoundaries t) true
+
+/-- **the gaps between evaluation months, from the CELLS**: one month id per DISTINCT evaluation date (not per
+distinct month), ascending, consecutive differences — two evaluation dates inside one month give a gap of 0 -/
+def evalMonthGaps (t : List Cell) : List Int := gapsOf ((t.map (·.ev)).eraseDups.map monthToId) false
+
+/-- the model's expression (sorted set over `periods`) is the cell-level one -/
+theorem periodBoundaryGaps_eq_cells (t : List Cell) : periodBoundaryGaps t = periodMonthGaps t := by
+  unfold periodBoundaryGaps periodMonthGaps gapsOf sortedDedup
+  simp only [if_true]
+  rw [diffs_eq_zip, ← leInt_eq]
+  have hp : (dedup ((Triangle.periods t).map (fun p => monthToId p.1) ++
+      (Triangle.periods t).map (fun p => monthToId p.2 + 1))).Perm (periodBoundaries t).eraseDups := by
+    apply perm_of_nodup_mem (nodup_dedup _) (nodup_eraseDups _)
+    intro x
+    obtain ⟨_, hmem⟩ := periods_eq_sortedDedup t
+    rw [mem_dedup, List.mem_eraseDups]
+    simp only [periodBoundaries, List.mem_append, List.mem_map]
+    constructor
+    · rintro (⟨p, hp, rfl⟩ | ⟨p, hp, rfl⟩)
+      · obtain ⟨c, hc, rfl⟩ := (hmem p).mp hp; exact Or.inl ⟨c, hc, rfl⟩
+      · obtain ⟨c, hc, rfl⟩ := (hmem p).mp hp; exact Or.inr ⟨c, hc, rfl⟩
+    · rintro (⟨c, hc, rfl⟩ | ⟨c, hc, rfl⟩)
+      · exact Or.inl ⟨c.period, (hmem _).mpr ⟨c, hc, rfl⟩, rfl⟩
+      · exact Or.inr ⟨c.period, (hmem _).mpr ⟨c, hc, rfl⟩, rfl⟩
+  rw [mergeSort_int_perm hp]
+
+/-- what `period_resolution` computes, case by case -/
+theorem periodResolution_eq (t : List Cell) :
+    Triangle.periodResolution t =
+      if t = [] then .error .valueError
+      else if (periodMonthGaps t).isEmpty then .ok none else (multiGcd (periodMonthGaps t)).map some := by
+  rw [← periodBoundaryGaps_eq_cells]
+  unfold Triangle.periodResolution
+  obtain ⟨_, hmem⟩ := periods_eq_sortedDedup t
+  cases t with
+  | nil => simp [Triangle.periods, sortedDedup, dedup]
+  | cons c0 rest =>
+    rw [if_neg (List.cons_ne_nil _ _)]
+    split
+    · rename_i hp
+      have : c0.period ∈ Triangle.periods (c0 :: rest) := (hmem _).mpr ⟨c0, by simp, rfl⟩
+      rw [hp] at this; simp at this
+    · rfl
+
+private theorem periodMonthGaps_pos (t : List Cell) : ∀ g ∈ periodMonthGaps t, 0 < g := by
+  rw [← periodBoundaryGaps_eq_cells]
+  unfold periodBoundaryGaps
+  apply diffs_pos
+  obtain ⟨h, _⟩ := sortedDedup_spec (cmp := intCmp) (fun a b h => by simpa [intCmp] using h)
+    ((Triangle.periods t).map (fun p => monthToId p.1) ++ (Triangle.periods t).map (fun p => monthToId p.2 + 1))
+  refine h.imp ?_
+  intro a b hab
+  simpa [intCmp, Int.compare_eq_lt] using hab
+
+/-- **`period_resolution` divides every gap between period boundaries (gaps from the cells), is positive, and is
+the LARGEST such month count** -/
+theorem periodResolution_largest {t : List Cell} {r : Int} (h : Triangle.periodResolution t = .ok (some r)) :
+    0 < r ∧ (∀ g ∈ periodMonthGaps t, r ∣ g) ∧
+    (∀ d : Int, (∀ g ∈ periodMonthGaps t, d ∣ g) → d ∣ r) ∧
+    ∀ d : Int, (∀ g ∈ periodMonthGaps t, d ∣ g) → d ≤ r := by
+  obtain ⟨h1, h2⟩ := periodResolution_spec h
+  rw [periodBoundaryGaps_eq_cells] at h1 h2
+  rw [periodResolution_eq] at h
+  split at h
+  · cases h
+  · split at h
+    · cases h
+    · rename_i hne
+      cases hg : multiGcd (periodMonthGaps t) with
+      | error e => simp [hg, Except.map] at h
+      | ok v =>
+        simp only [hg, Except.map, Except.ok.injEq, Option.some.injEq] at h
+        subst h
+        have h0 : 0 ≤ v := multiGcd_nonneg (fun x hx => Int.le_of_lt (periodMonthGaps_pos t x hx)) hg
+        have hpos : 0 < v := by
+          cases hl : periodMonthGaps t with
+          | nil => rw [hl] at hne; simp at hne
+          | cons g gs =>
+            have hg0 := periodMonthGaps_pos t g (by rw [hl]; simp)
+            have hd := h1 g (by rw [hl]; simp)
+            rcases Int.lt_or_eq_of_le h0 with h' | h'
+            · exact h'
+            · rw [← h'] at hd
+              have := Int.zero_dvd.mp hd
+              omega
+        exact ⟨hpos, h1, h2, fun d hd => Int.le_of_dvd hpos (h2 d hd)⟩
+
+/-- **`period_resolution` is defined exactly when two period boundaries differ** (`None` when all boundaries
+coincide, which needs `period_start` in the month after `period_end`; `ValueError` on the empty triangle) -/
+theorem periodResolution_defined_iff {t : List Cell} (ht : t ≠ []) :
+    (∃ r, Triangle.periodResolution t = .ok (some r)) ↔
+      ∃ a ∈ periodBoundaries t, ∃ b ∈ periodBoundaries t, a ≠ b := by
+  rw [periodResolution_eq, if_neg ht]
+  have hL : ∀ x, x ∈ ((periodBoundaries t).eraseDups.mergeSort fun a b => decide (a ≤ b)) ↔ x ∈ periodBoundaries t := by
+    intro x; rw [(List.mergeSort_perm _ _).mem_iff, List.mem_eraseDups]
+  have hnd : ((periodBoundaries t).eraseDups.mergeSort fun a b => decide (a ≤ b)).Nodup :=
+    (List.mergeSort_perm _ _).nodup_iff.mpr (nodup_eraseDups _)
+  have hlen : (periodMonthGaps t).length =
+      ((periodBoundaries t).eraseDups.mergeSort fun a b => decide (a ≤ b)).length - 1 := by
+    unfold periodMonthGaps gapsOf
+    simp only [if_true]
+    exact diffs_length _
+  constructor
+  · rintro ⟨r, h⟩
+    split at h
+    · cases h
+    · rename_i hne
+      have : 2 ≤ ((periodBoundaries t).eraseDups.mergeSort fun a b => decide (a ≤ b)).length := by
+        cases hl : periodMonthGaps t with
+        | nil => rw [hl] at hne; simp at hne
+        | cons g gs => rw [hl] at hlen; simp only [List.length_cons] at hlen; omega
+      revert hL hnd this
+      generalize ((periodBoundaries t).eraseDups.mergeSort fun a b => decide (a ≤ b)) = L
+      intro hL hnd h2
+      match L, h2 with
+      | a :: b :: r, _ =>
+        have := (List.nodup_cons.mp hnd).1
+        exact ⟨a, (hL a).mp (by simp), b, (hL b).mp (by simp), fun e => this (by simp [e])⟩
+  · rintro ⟨a, ha, b, hb, hab⟩
+    have h2 : 2 ≤ ((periodBoundaries t).eraseDups.mergeSort fun a b => decide (a ≤ b)).length := by
+      have ha' := (hL a).mpr ha
+      have hb' := (hL b).mpr hb
+      revert ha' hb'
+      generalize ((periodBoundaries t).eraseDups.mergeSort fun a b => decide (a ≤ b)) = L
+      intro ha' hb'
+      match L, ha', hb' with
+      | [x], ha', hb' => simp at ha' hb'; exact absurd (ha'.trans hb'.symm) hab
+      | _ :: _ :: _, _, _ => simp
+    have hne : (periodMonthGaps t) ≠ [] := by
+      intro e; rw [e] at hlen; simp only [List.length_nil] at hlen; omega
+    obtain ⟨r, hr⟩ := multiGcd_ok hne
+    refine ⟨r, ?_⟩
+    have : (periodMonthGaps t).isEmpty = false := by
+      cases hl : periodMonthGaps t with
+      | nil => exact absurd hl hne
+      | cons _ _ => rfl
+    simp [this, hr, Except.map]
+
+/-- **`period_resolution` is defined (a positive month count) on every non-empty triangle of proper cells**
+(valid dates, `period_start ≤ period_end` for at least one cell) -/
+theorem periodResolution_defined {t : List Cell} {c : Cell} (hc : c ∈ t)
+    (hv : c.ps.valid = true ∧ c.pe.valid = true ∧ c.ps ≤ c.pe) :
+    ∃ r, Triangle.periodResolution t = .ok (some r) ∧ 0 < r := by
+  have ht : t ≠ [] := List.ne_nil_of_mem hc
+  obtain ⟨r, hr⟩ := (periodResolution_defined_iff ht).mpr
+    ⟨monthToId c.ps, by simp only [periodBoundaries, List.mem_append, List.mem_map]; exact Or.inl ⟨c, hc, rfl⟩,
+     monthToId c.pe + 1, by simp only [periodBoundaries, List.mem_append, List.mem_map]; exact Or.inr ⟨c, hc, rfl⟩,
+     by have := monthToId_mono' hv.1 hv.2.1 hv.2.2; omega⟩
+  exact ⟨r, hr, (periodResolution_largest hr).1⟩
+
+/-- the model's expression (month ids of `evaluation_dates`, sorted, NOT deduplicated) is the cell-level one -/
+theorem evalDiffs_eq_cells (t : List Cell) :
+    diffs (((Triangle.evaluationDates t).map monthToId).mergeSort (fun a b => intCmp a b != .gt)) =
+      evalMonthGaps t := by
+  unfold evalMonthGaps gapsOf
+  simp only [Bool.false_eq_true, if_false]
+  rw [diffs_eq_zip, ← leInt_eq]
+  obtain ⟨hlt, hmem⟩ := evaluationDates_eq_sortedDedup t
+  have hnd : (Triangle.evaluationDates t).Nodup := by
+    refine hlt.imp ?_
+    intro a b h e
+    rw [e, Date.lt_iff_sel] at h; omega
+  have hp : (Triangle.evaluationDates t).Perm (t.map (·.ev)).eraseDups := by
+    apply perm_of_nodup_mem hnd (nodup_eraseDups _)
+    intro d
+    rw [hmem, List.mem_eraseDups, List.mem_map]
+  rw [mergeSort_int_perm (hp.map monthToId)]
+
+/-- what `eval_date_resolution` computes, case by case: it never raises -/
+theorem evalDateResolution_eq (t : List Cell) :
+    Triangle.evalDateResolution t =
+      if (evalMonthGaps t).isEmpty then .ok none else (multiGcd (evalMonthGaps t)).map some := by
+  rw [← evalDiffs_eq_cells]; rfl
+
+private theorem evalMonthGaps_nonneg (t : List Cell) : ∀ g ∈ evalMonthGaps t, 0 ≤ g := by
+  rw [← evalDiffs_eq_cells]
+  exact diffs_nonneg (sorted_int_mergeSort _)
+
+private theorem evalMonthGaps_length (t : List Cell) :
+    (evalMonthGaps t).length = (t.map (·.ev)).eraseDups.length - 1 := by
+  unfold evalMonthGaps gapsOf
+  simp only [Bool.false_eq_true, if_false]
+  rw [← diffs_eq_zip, diffs_length, List.length_mergeSort, List.length_map]
+
+/-- **`eval_date_resolution` divides every gap between evaluation months (gaps from the cells: one month id per
+distinct evaluation DATE), is non-negative, and every common divisor of the gaps divides it** — so it is the
+largest common divisor whenever some gap is non-zero, and 0 when all gaps are 0 -/
+theorem evalDateResolution_spec {t : List Cell} {r : Int} (h : Triangle.evalDateResolution t = .ok (some r)) :
+    0 ≤ r ∧ (∀ g ∈ evalMonthGaps t, r ∣ g) ∧ ∀ d : Int, (∀ g ∈ evalMonthGaps t, d ∣ g) → d ∣ r := by
+  rw [evalDateResolution_eq] at h
+  split at h
+  · cases h
+  · cases hg : multiGcd (evalMonthGaps t) with
+    | error e => simp [hg, Except.map] at h
+    | ok v =>
+      simp only [hg, Except.map, Except.ok.injEq, Option.some.injEq] at h
+      subst h
+      exact ⟨multiGcd_nonneg (evalMonthGaps_nonneg t) hg, resolution_dvd_all hg, resolution_greatest hg⟩
+
+/-- **`eval_date_resolution` is `None` exactly when the cells carry at most one distinct evaluation date, and a
+number otherwise** (it never raises, not even on the empty triangle) -/
+theorem evalDateResolution_defined (t : List Cell) :
+    ((t.map (·.ev)).eraseDups.length ≤ 1 → Triangle.evalDateResolution t = .ok none) ∧
+    (2 ≤ (t.map (·.ev)).eraseDups.length → ∃ r, Triangle.evalDateResolution t = .ok (some r)) := by
+  have hlen := evalMonthGaps_length t
+  rw [evalDateResolution_eq]
+  constructor
+  · intro h
+    have : evalMonthGaps t = [] := List.eq_nil_of_length_eq_zero (by omega)
+    simp [this]
+  · intro h
+    have hne : evalMonthGaps t ≠ [] := by
+      intro e; rw [e] at hlen; simp only [List.length_nil] at hlen; omega
+    obtain ⟨r, hr⟩ := multiGcd_ok hne
+    have : (evalMonthGaps t).isEmpty = false := by
+      cases hl : evalMonthGaps t with
+      | nil => exact absurd hl hne
+      | cons _ _ => rfl
+    exact ⟨r, by simp [this, hr, Except.map]⟩
+
+/-- **the quirk**: when all evaluation dates lie in ONE calendar month and there are at least two distinct dates,
+`eval_date_resolution` is 0 — not `None` and not a "month count that divides every gap between evaluation months"
+in any useful sense (the month ids are sorted but not deduplicated, `date_utils.py:161-163`) -/
+theorem evalDateResolution_same_month (t : List Cell) (m : Int) (hm : ∀ c ∈ t, monthToId c.ev = m)
+    (h2 : ∃ a ∈ t, ∃ b ∈ t, a.ev ≠ b.ev) : Triangle.evalDateResolution t = .ok (some 0) := by
+  have hlen : 2 ≤ (t.map (·.ev)).eraseDups.length := by
+    obtain ⟨a, ha, b, hb, hab⟩ := h2
+    have ha' : a.ev ∈ (t.map (·.ev)).eraseDups := List.mem_eraseDups.mpr (List.mem_map.mpr ⟨a, ha, rfl⟩)
+    have hb' : b.ev ∈ (t.map (·.ev)).eraseDups := List.mem_eraseDups.mpr (List.mem_map.mpr ⟨b, hb, rfl⟩)
+    revert ha' hb'
+    generalize (t.map (·.ev)).eraseDups = L
+    intro ha' hb'
+    match L, ha', hb' with
+    | [x], ha', hb' => simp at ha' hb'; exact absurd (ha'.trans hb'.symm) hab
+    | _ :: _ :: _, _, _ => simp
+  obtain ⟨r, hr⟩ := (evalDateResolution_defined t).2 hlen
+  obtain ⟨_, _, h3⟩ := evalDateResolution_spec hr
+  have hz : ∀ g ∈ evalMonthGaps t, g = 0 := by
+    intro g hg
+    unfold evalMonthGaps gapsOf at hg
+    simp only [Bool.false_eq_true, if_false] at hg
+    rw [← diffs_eq_zip] at hg
+    obtain ⟨a, ha, b, hb, rfl⟩ := mem_diffs hg
+    have key : ∀ x ∈ ((t.map (·.ev)).eraseDups.map monthToId).mergeSort (fun a b => decide (a ≤ b)), x = m := by
+      intro x hx
+      rw [(List.mergeSort_perm _ _).mem_iff, List.mem_map] at hx
+      obtain ⟨d, hd, rfl⟩ := hx
+      obtain ⟨c, hc, rfl⟩ := List.mem_map.mp (List.mem_eraseDups.mp hd)
+      exact hm c hc
+    rw [key a ha, key b hb]; omega
+  have : (0 : Int) ∣ r := h3 0 (fun g hg => by rw [hz g hg]; exact Int.dvd_refl 0)
+  rw [Int.zero_dvd.mp this] at hr
+  exact hr
+
+/-- the quirk, on a concrete triangle: evaluations on 15 and 31 January only -/
+example :
+    Triangle.evalDateResolution
+      [ { ps := ⟨2020, 1, 1⟩, pe := ⟨2020, 1, 31⟩, ev := ⟨2020, 1, 15⟩ },
+        { ps := ⟨2020, 1, 1⟩, pe := ⟨2020, 1, 31⟩, ev := ⟨2020, 1, 31⟩ } ] = .ok (some 0) :=
+  evalDateResolution_same_month _ 600 (by decide) (by decide)
+
+/-! ### 10. Spec bridges: the model's answers satisfy the predicates the driver evaluates on the implementation -/
+
+theorem spec_sortedDistinct_periods (t : List Cell) :
+    sortedDistinct periodCmp (t.map Cell.period) (Triangle.periods t) = true := by
+  obtain ⟨h1, h2⟩ := periods_eq_sortedDedup t
+  exact sortedDistinct_of h1 (fun p => by rw [h2, List.mem_map])
+
+theorem spec_sortedDistinct_evaluationDates (t : List Cell) :
+    sortedDistinct Date.cmp (t.map (·.ev)) (Triangle.evaluationDates t) = true := by
+  obtain ⟨h1, h2⟩ := evaluationDates_eq_sortedDedup t
+  exact sortedDistinct_of h1 (fun p => by rw [h2, List.mem_map])
+
+theorem spec_sortedDistinct_devLags (t : List Cell) (u : LagUnit) :
+    ∃ l, Triangle.devLags t (some u) = .ok l ∧ sortedDistinct ratCmp (t.map (·.devLag u)) l = true := by
+  obtain ⟨l, hl, h1, h2⟩ := devLags_eq_sortedDedup t u
+  exact ⟨l, hl, sortedDistinct_of h1 (fun p => by rw [h2, List.mem_map])⟩
+
+theorem spec_sortedDistinct_fields (t : List Cell) :
+    sortedDistinct strCmp (t.flatMap (·.values.keys)) (Triangle.fields t) = true := by
+  obtain ⟨h1, h2⟩ := fields_eq_sortedDedup t
+  exact sortedDistinct_of h1 (fun p => by rw [h2, List.mem_flatMap])
+
+theorem spec_sortedDistinct_metadata (t : List Cell) (hc : ∀ c ∈ t, c.md.Canon) :
+    sortedDistinct Metadata.cmp (t.map (·.md)) (Triangle.metadata t) = true := by
+  obtain ⟨h1, h2⟩ := metadata_eq_sortedDedup t hc
+  exact sortedDistinct_of h1 (fun p => by rw [h2, List.mem_map])
+
+theorem spec_countsSpec_cells (t : List Cell) :
+    countsSpec (fun (c : Cell) => c.values.keys) t (t.flatMap (·.values.keys)) (Triangle.fieldCellCounts t) = true := by
+  rw [fieldCellCounts_eq_countP]
+  simp only [countsSpec, Bool.and_eq_true, List.map_map, List.all_map, List.all_eq_true]
+  refine ⟨?_, fun f _ => by simp⟩
+  have : ((fun (x : String × Nat) => x.1) ∘ fun f => (f, t.countP fun c => c.values.keys.contains f)) = id := rfl
+  rw [this, List.map_id]
+  exact spec_sortedDistinct_fields t
+
+theorem spec_countsSpec_slices (t : List Cell) :
+    countsSpec (fun (m : Metadata) => (t.filter (·.md == m)).flatMap (·.values.keys))
+      (t.map (·.md)).eraseDups (t.flatMap (·.values.keys)) (Triangle.fieldSliceCounts t) = true := by
+  rw [fieldSliceCounts_eq_countP]
+  simp only [countsSpec, Bool.and_eq_true, List.map_map, List.all_map, List.all_eq_true]
+  constructor
+  · have : ((fun (x : String × Nat) => x.1) ∘ fun f =>
+        (f, (Triangle.slices t).countP fun slc => (Triangle.fields slc.2).contains f)) = id := rfl
+    rw [this, List.map_id]
+    exact spec_sortedDistinct_fields t
+  · intro f _
+    simp only [Function.comp, beq_iff_eq]
+    unfold Triangle.slices
+    rw [List.countP_map]
+    obtain ⟨hnd, hmem, hcov⟩ := metasOf_spec t
+    have hp : (metasOf t).Perm (t.map (·.md)).eraseDups := by
+      apply perm_of_nodup_mem hnd (nodup_eraseDups _)
+      intro m
+      rw [List.mem_eraseDups, List.mem_map]
+      exact ⟨fun h => by obtain ⟨c, hc, e⟩ := hmem m h; exact ⟨c, hc, e⟩, fun ⟨c, hc, e⟩ => e ▸ hcov c hc⟩
+    rw [← hp.countP_eq]
+    apply List.countP_congr
+    intro m _
+    simp only [Function.comp, List.contains_iff_mem]
+    rw [(fields_eq_sortedDedup _).2 f]
+    simp only [List.mem_flatMap, (List.mergeSort_perm _ _).mem_iff]
+
+/-- `num_samples` answer of the model in the shape the driver hands to `numSamplesSpec` (`none` = refused) -/
+def numSamplesOut (t : List Cell) : Option Nat :=
+  match Triangle.numSamples t with
+  | .ok n => some n
+  | .error _ => none
+
+private theorem mem_sizes_iff (t : List Cell) (n : Nat) :
+    n ∈ (t.flatMap fun c => c.values.filterMap (·.2.sampleSize)).eraseDups ↔
+      ∃ v ∈ allValues t, v.sampleSize = some n := by
+  simp only [List.mem_eraseDups, List.mem_flatMap, List.mem_filterMap, allValues, List.mem_map]
+  constructor
+  · rintro ⟨c, hc, kv, hkv, h⟩; exact ⟨kv.2, ⟨c, hc, kv, hkv, rfl⟩, h⟩
+  · rintro ⟨v, ⟨c, hc, kv, hkv, rfl⟩, h⟩; exact ⟨c, hc, kv, hkv, h⟩
+
+theorem spec_numSamplesSpec (t : List Cell) : numSamplesSpec t (numSamplesOut t) = true := by
+  obtain ⟨hsame, hdiff⟩ := numSamples_spec t
+  have hmem := mem_sizes_iff t
+  have hnd := nodup_eraseDups (t.flatMap fun c => c.values.filterMap (·.2.sampleSize))
+  unfold numSamplesSpec numSamplesOut
+  simp only []
+  revert hmem hnd
+  generalize (t.flatMap fun c => c.values.filterMap (·.2.sampleSize)).eraseDups = sizes
+  intro hmem hnd
+  match sizes, hmem, hnd with
+  | [], hmem, _ =>
+    have hnone : ∀ v ∈ allValues t, ∀ n, v.sampleSize = some n → n = 1 := by
+      intro v hv n hn
+      have := (hmem n).mpr ⟨v, hv, hn⟩
+      simp at this
+    have hany : (allValues t).any (fun v => v.sampleSize.isSome) = false := by
+      rw [← Bool.not_eq_true, List.any_eq_true]
+      rintro ⟨v, hv, hs⟩
+      obtain ⟨n, hn⟩ := Option.isSome_iff_exists.mp hs
+      have := (hmem n).mpr ⟨v, hv, hn⟩
+      simp at this
+    rw [hsame 1 hnone, hany]; simp
+  | [k], hmem, _ =>
+    have hk : ∀ v ∈ allValues t, ∀ n, v.sampleSize = some n → n = k := by
+      intro v hv n hn
+      have := (hmem n).mpr ⟨v, hv, hn⟩
+      simpa using this
+    have hany : (allValues t).any (fun v => v.sampleSize.isSome) = true := by
+      obtain ⟨v, hv, hn⟩ := (hmem k).mp (by simp)
+      exact List.any_eq_true.mpr ⟨v, hv, by simp [hn]⟩
+    rw [hsame k hk, hany]; simp
+  | a :: b :: r, hmem, hnd =>
+    obtain ⟨v, hv, hva⟩ := (hmem a).mp (by simp)
+    obtain ⟨w, hw, hwb⟩ := (hmem b).mp (by simp)
+    have hab : a ≠ b := fun e => (List.nodup_cons.mp hnd).1 (by simp [e])
+    rw [hdiff ⟨v, hv, w, hw, a, b, hva, hwb, hab⟩]
+
+theorem spec_commonSpec {t : List Cell} {c : Metadata} (h : Triangle.commonMetadata t = .ok c)
+    (hk : ∀ m ∈ Triangle.metadata t, KeysDistinct m.details ∧ KeysDistinct m.lossDetails) :
+    commonSpec (t.map (·.md)).eraseDups c = true := by
+  obtain ⟨⟨a1, a2, a3, a4, a5, a6⟩, d1, d2⟩ := common_keeps_exactly_shared h hk
+  have conv : ∀ {P : Metadata → Prop}, (∀ m ∈ Triangle.metadata t, P m) ↔ ∀ m ∈ (t.map (·.md)).eraseDups, P m :=
+    fun {P} => ⟨fun h m hm => h m ((mem_metadata_iff t m).mpr hm), fun h m hm => h m ((mem_metadata_iff t m).mp hm)⟩
+  simp only [commonSpec, Bool.and_eq_true]
+  refine ⟨⟨⟨⟨⟨⟨⟨?_, ?_⟩, ?_⟩, ?_⟩, ?_⟩, ?_⟩, ?_⟩, ?_⟩
+  · exact optAttr_of_iff (·.riskBasis) _ c (fun x => (a1 x).trans conv)
+  · exact optAttr_of_iff (·.country) _ c (fun x => (a2 x).trans conv)
+  · exact optAttr_of_iff (·.currency) _ c (fun x => (a3 x).trans conv)
+  · exact optAttr_of_iff (·.reinsuranceBasis) _ c (fun x => (a4 x).trans conv)
+  · exact optAttr_of_iff (·.lossDefinition) _ c (fun x => (a5 x).trans conv)
+  · exact optAttr_of_iff (·.limit) _ c (fun x => (a6 x).trans conv)
+  · exact dictShared_of_iff (·.details) _ c (fun kv => (d1 kv).trans conv)
+  · exact dictShared_of_iff (·.lossDetails) _ c (fun kv => (d2 kv).trans conv)
+
+/-- entry `i` of `metadata_differences` is `metadata_diff(common_metadata, metadata[i])` -/
+theorem metadataDifferences_eq_map {t : List Cell} {c : Metadata} (h : Triangle.commonMetadata t = .ok c) :
+    Triangle.metadataDifferences t = .ok ((Triangle.metadata t).map (metadataDiff c)) := by
+  unfold Triangle.metadataDifferences
+  split
+  · rename_i hm
+    unfold Triangle.commonMetadata at h
+    rw [hm] at h; cases h
+  · simp [h, bind, Except.bind, pure, Except.pure]
+
+theorem metadataDifferences_getElem {t : List Cell} {c : Metadata} {ds : List Metadata}
+    (h : Triangle.commonMetadata t = .ok c) (hd : Triangle.metadataDifferences t = .ok ds)
+    (i : Nat) (hi : i < (Triangle.metadata t).length) :
+    ds[i]'(by rw [metadataDifferences_length hd]; exact hi) = metadataDiff c (Triangle.metadata t)[i] := by
+  rw [metadataDifferences_eq_map h] at hd
+  cases hd
+  simp
+
+theorem spec_recombineSpec {t : List Cell} {c : Metadata} {ds : List Metadata}
+    (h : Triangle.commonMetadata t = .ok c) (hd : Triangle.metadataDifferences t = .ok ds)
+    (hc : ∀ m ∈ Triangle.metadata t, m.Canon) :
+    recombineSpec (Triangle.metadata t) c ds = true := by
+  rw [metadataDifferences_eq_map h] at hd
+  cases hd
+  have hk : ∀ m ∈ Triangle.metadata t, KeysDistinct m.details ∧ KeysDistinct m.lossDetails :=
+    fun m hm => ⟨keysDistinct_of_canon (hc m hm).1, keysDistinct_of_canon (hc m hm).2⟩
+  unfold recombineSpec
+  rw [zip_map_all]
+  simp only [List.length_map, beq_self_eq_true, Bool.true_and, List.all_eq_true, Bool.and_eq_true, beq_iff_eq,
+    Bool.not_eq_true']
+  intro m hm
+  obtain ⟨_, _, d3, d4⟩ := recombine_diff_details h hk hm
+  refine ⟨⟨recombine_diff h hc hm, fun kv hkv => ?_⟩, fun kv hkv => ?_⟩
+  · rw [keys_contains_eq]; exact d3 kv hkv
+  · rw [keys_contains_eq]; exact d4 kv hkv
+
+theorem spec_periodResolutionSpec {t : List Cell} {r : Option Int} (h : Triangle.periodResolution t = .ok r) :
+    periodResolutionSpec t r = true := by
+  unfold periodResolutionSpec
+  cases r with
+  | some r =>
+    show (!(periodMonthGaps t).isEmpty && resolutionSpec (periodMonthGaps t) r) = true
+    obtain ⟨h0, h1, h2, _⟩ := periodResolution_largest h
+    have hne : (periodMonthGaps t).isEmpty = false := by
+      rw [periodResolution_eq] at h
+      split at h
+      · cases h
+      · split at h
+        · cases h
+        · rename_i hne; simpa using hne
+    simp only [hne, Bool.not_false, Bool.true_and]
+    exact resolutionSpec_of (Int.le_of_lt h0) h1 h2
+  | none =>
+    show (periodMonthGaps t).isEmpty = true
+    rw [periodResolution_eq] at h
+    split at h
+    · cases h
+    · split at h
+      · rename_i he; exact he
+      · cases hg : multiGcd (periodMonthGaps t) with
+        | error e => simp [hg, Except.map] at h
+        | ok v => simp [hg, Except.map] at h
+
+theorem spec_evalResolutionSpec {t : List Cell} {r : Option Int} (h : Triangle.evalDateResolution t = .ok r) :
+    evalResolutionSpec t r = true := by
+  unfold evalResolutionSpec
+  cases r with
+  | some r =>
+    show (!(evalMonthGaps t).isEmpty && resolutionSpec (evalMonthGaps t) r) = true
+    obtain ⟨h0, h1, h2⟩ := evalDateResolution_spec h
+    have hne : (evalMonthGaps t).isEmpty = false := by
+      rw [evalDateResolution_eq] at h
+      split at h
+      · cases h
+      · rename_i hne; simpa using hne
+    simp only [hne, Bool.not_false, Bool.true_and]
+    exact resolutionSpec_of h0 h1 h2
+  | none =>
+    show (evalMonthGaps t).isEmpty = true
+    rw [evalDateResolution_eq] at h
+    split at h
+    · rename_i he; exact he
+    · cases hg : multiGcd (evalMonthGaps t) with
+      | error e => simp [hg, Except.map] at h
+      | ok v => simp [hg, Except.map] at h
+
+/-! ### 11. experience_gaps: what the reported ranges mean on a disjoint triangle -/
+
+/-- proper cells: valid dates and `period_start ≤ period_end` (the cell constructor's rule) -/
+def ProperCells (t : List Cell) : Prop := ∀ c ∈ t, c.ps.valid = true ∧ c.pe.valid = true ∧ c.ps ≤ c.pe
+
+private theorem periods_proper_apart {t : List Cell} (hv : ProperCells t) (hd : Triangle.isDisjoint t = true) :
+    (∀ p ∈ Triangle.periods t, ProperP p) ∧ (Triangle.periods t).Pairwise (fun a b => a.2 < b.1) := by
+  obtain ⟨_, hmem⟩ := periods_eq_sortedDedup t
+  have hvp : ∀ p ∈ Triangle.periods t, ProperP p := by
+    intro p hp
+    obtain ⟨c, hc, rfl⟩ := (hmem p).mp hp
+    exact hv c hc
+  refine ⟨hvp, ?_⟩
+  cases t with
+  | nil => simp [Triangle.periods, sortedDedup, dedup]
+  | cons c0 rest =>
+    unfold Triangle.isDisjoint at hd
+    simp only [List.isEmpty_cons, Bool.false_eq_true, if_false] at hd
+    exact (adjacent_apart_iff_pairwise (Triangle.periods (c0 :: rest)) (fun p hp => (hvp p hp).2.2)).mp hd
+
+/-- **on a disjoint triangle every reported gap is a non-empty day range that shares no day with any cell's
+period, starts the day after some period ends and ends the day before some period starts** -/
+theorem experienceGaps_sound {t : List Cell} (hv : ProperCells t) (hd : Triangle.isDisjoint t = true)
+    {g : Period} (hg : g ∈ Triangle.experienceGaps t) :
+    g.1 ≤ g.2 ∧ (∀ c ∈ t, overlap c.period g = false) ∧ (∃ c ∈ t, c.pe.succ = g.1) ∧ (∃ c ∈ t, c.ps.pred = g.2) := by
+  obtain ⟨hvp, hp⟩ := periods_proper_apart hv hd
+  obtain ⟨_, hmem⟩ := periods_eq_sortedDedup t
+  rw [experienceGaps_eq] at hg
+  obtain ⟨h1, h2, ⟨p, hpm, h3⟩, ⟨q, hqm, h4⟩⟩ := gaps_sound hvp hp hg
+  refine ⟨h1, ?_, ?_, ?_⟩
+  · intro c hc
+    have := h2 c.period ((hmem _).mpr ⟨c, hc, rfl⟩)
+    simp only [overlap, Bool.and_eq_false_iff, decide_eq_false_iff_not]
+    rcases this with h | h
+    · exact Or.inr (Date.not_le.mpr h)
+    · exact Or.inl (Date.not_le.mpr h)
+  · obtain ⟨c, hc, rfl⟩ := (hmem p).mp hpm; exact ⟨c, hc, h3⟩
+  · obtain ⟨c, hc, rfl⟩ := (hmem q).mp hqm; exact ⟨c, hc, h4⟩
+
+/-- **the gaps are complete on a disjoint triangle**: every day from the earliest period start to the latest
+period end lies in some cell's period or in a reported gap (and, by `experienceGaps_sound`, never in both) -/
+theorem experienceGaps_complete {t : List Cell} (hv : ProperCells t) (hd : Triangle.isDisjoint t = true)
+    {d : Date} (hdv : d.valid = true) (h1 : ∃ c ∈ t, c.ps ≤ d) (h2 : ∃ c ∈ t, d ≤ c.pe) :
+    (∃ c ∈ t, c.ps ≤ d ∧ d ≤ c.pe) ∨ ∃ g ∈ Triangle.experienceGaps t, g.1 ≤ d ∧ d ≤ g.2 := by
+  obtain ⟨hvp, hp⟩ := periods_proper_apart hv hd
+  obtain ⟨_, hmem⟩ := periods_eq_sortedDedup t
+  rw [experienceGaps_eq]
+  have h1' : ∃ p ∈ Triangle.periods t, p.1 ≤ d := by
+    obtain ⟨c, hc, h⟩ := h1; exact ⟨c.period, (hmem _).mpr ⟨c, hc, rfl⟩, h⟩
+  have h2' : ∃ p ∈ Triangle.periods t, d ≤ p.2 := by
+    obtain ⟨c, hc, h⟩ := h2; exact ⟨c.period, (hmem _).mpr ⟨c, hc, rfl⟩, h⟩
+  rcases gaps_complete hvp hp hdv h1' h2' with ⟨p, hpm, h⟩ | h
+  · obtain ⟨c, hc, rfl⟩ := (hmem p).mp hpm
+    exact Or.inl ⟨c, hc, h⟩
+  · exact Or.inr h
+
+/-- **the deviation for overlapping periods**: when two neighbouring periods (in `periods` order) share a day, the
+reported "gap" between them is an INVERTED range (`start > end`) — `experience_gaps` does not check `is_disjoint` -/
+theorem experienceGaps_inverted_of_overlap {t : List Cell} {pq : Period × Period}
+    (hpq : pq ∈ adjacentPairs (Triangle.periods t)) (hov : pq.2.1 ≤ pq.1.2) :
+    (pq.1.2.succ, pq.2.1.pred) ∈ Triangle.experienceGaps t ∧ pq.2.1.pred < pq.1.2.succ := by
+  have h1 : pq.2.1.pred < pq.2.1 := Date.pred_lt' _
+  have h2 : pq.1.2 < pq.1.2.succ := Date.lt_succ' _
+  have h3 : pq.2.1 < pq.1.2.succ := Date.lt_of_le_of_lt hov h2
+  refine ⟨(experienceGaps_spec t _).mpr ⟨pq, hpq, ?_, rfl⟩, ?_⟩
+  · intro e; rw [e, Date.lt_iff_sel] at h3; omega
+  · rw [Date.lt_iff_sel] at *; omega
+
+/-- a year and a quarter inside it (one slice) -/
+def exOverlap : List Cell :=
+  [ { ps := ⟨2020, 1, 1⟩, pe := ⟨2020, 12, 31⟩, ev := ⟨2020, 12, 31⟩ },
+    { ps := ⟨2020, 4, 1⟩, pe := ⟨2020, 6, 30⟩, ev := ⟨2020, 12, 31⟩ } ]
+
+private theorem exOverlap_periods :
+    Triangle.periods exOverlap = [(⟨2020, 1, 1⟩, ⟨2020, 12, 31⟩), (⟨2020, 4, 1⟩, ⟨2020, 6, 30⟩)] := by
+  unfold Triangle.periods sortedDedup
+  have : dedup (exOverlap.map Cell.period) =
+      [(⟨2020, 1, 1⟩, ⟨2020, 12, 31⟩), (⟨2020, 4, 1⟩, ⟨2020, 6, 30⟩)] := by decide
+  rw [this]
+  exact List.mergeSort_of_pairwise (by decide)
+
+/-- witness of the deviation: the reported "gap" runs from 2021-01-01 BACK to 2020-03-31 -/
+theorem exOverlap_gaps : Triangle.experienceGaps exOverlap = [(⟨2021, 1, 1⟩, ⟨2020, 3, 31⟩)] := by
+  unfold Triangle.experienceGaps
+  rw [exOverlap_periods]
+  decide
+
+/-- Spec bridge for `experience_gaps` (the driver evaluates `gapsSpec` whenever `Spec.disjoint t`) -/
+theorem spec_gapsSpec {t : List Cell} (hv : ProperCells t) (hd : Triangle.isDisjoint t = true) :
+    gapsSpec t (Triangle.experienceGaps t) = true := by
+  obtain ⟨hvp, hp⟩ := periods_proper_apart hv hd
+  obtain ⟨_, hmem⟩ := periods_eq_sortedDedup t
+  have hcell : ∀ {P : Period → Prop}, (∀ p ∈ Triangle.periods t, P p) → ∀ p ∈ t.map Cell.period, P p := by
+    intro P h p hpm
+    obtain ⟨c, hc, rfl⟩ := List.mem_map.mp hpm
+    exact h _ ((hmem _).mpr ⟨c, hc, rfl⟩)
+  have hcellE : ∀ {P : Period → Prop}, (∃ p ∈ Triangle.periods t, P p) → ∃ p ∈ t.map Cell.period, P p := by
+    rintro P ⟨p, hpm, h⟩
+    obtain ⟨c, hc, rfl⟩ := (hmem p).mp hpm
+    exact ⟨_, List.mem_map.mpr ⟨c, hc, rfl⟩, h⟩
+  simp only [gapsSpec, Bool.and_eq_true, List.all_eq_true, List.any_eq_true, Bool.or_eq_true, decide_eq_true_eq,
+    beq_iff_eq, Bool.not_eq_true']
+  refine ⟨⟨?_, ?_⟩, ?_⟩
+  · apply strictAsc_of_pairwise
+    rw [experienceGaps_eq]
+    refine (gaps_ascending hvp hp).imp ?_
+    intro g g' h
+    rw [periodCmp_lt_iff]; exact Or.inl h
+  · intro g hg
+    obtain ⟨h1, h2, ⟨c, hc, h3⟩, ⟨c', hc', h4⟩⟩ := experienceGaps_sound hv hd hg
+    refine ⟨⟨⟨h1, ⟨c.period, List.mem_map.mpr ⟨c, hc, rfl⟩, h3⟩⟩, ⟨c'.period, List.mem_map.mpr ⟨c', hc', rfl⟩, h4⟩⟩, ?_⟩
+    intro p hpm
+    obtain ⟨c, hc, rfl⟩ := List.mem_map.mp hpm
+    exact h2 c hc
+  · apply hcell
+    intro p hpm
+    rcases gaps_open hvp hp p hpm with h | h | h
+    · exact Or.inl (Or.inl (hcell h))
+    · exact Or.inl (Or.inr (hcellE h))
+    · exact Or.inr h
+
+/-! ### 12. calendar meaning of "period length in months" -/
+
+/-- **calendar meaning of the month length of a period**: a period that starts on the first of a month and ends
+on a month end is exactly as many months long as the calendar months it spans — the formula shared by the model
+(`periodLength`) and the Spec (`duration`) is anchored in month ids -/
+theorem periodLength_month_aligned (p : Period) (hv1 : p.1.valid = true) (h1 : p.1.d = 1)
+    (h2 : p.2.d = dim p.2.y p.2.m) :
+    periodLength .month p = ((monthToId p.2 - monthToId p.1 + 1 : Int) : Rat) := by
+  simp only [Date.valid, Bool.and_eq_true, decide_eq_true_eq] at hv1
+  have hpred : p.1.pred.d = dim p.1.pred.y p.1.pred.m ∧
+      (12 * (p.2.y - p.1.pred.y) + ((p.2.m : Int) - (p.1.pred.m : Int))) = monthToId p.2 - monthToId p.1 + 1 := by
+    unfold Date.pred monthToId
+    split
+    · omega
+    · split
+      · refine ⟨rfl, ?_⟩
+        show 12 * (p.2.y - p.1.y) + ((p.2.m : Int) - ((p.1.m - 1 : Nat) : Int)) = _
+        omega
+      · refine ⟨by simp [dim], ?_⟩
+        show 12 * (p.2.y - (p.1.y - 1)) + ((p.2.m : Int) - ((12 : Nat) : Int)) = _
+        omega
+  show devLagMonths p.1.pred p.2 = _
+  unfold devLagMonths
+  rw [monthFraction_monthEnd hpred.1, monthFraction_monthEnd h2, hpred.2]
+  grind
+
+/-- the Spec's `duration` of a month-aligned cell is its number of calendar months -/
+theorem duration_month_aligned (c : Cell) (hv1 : c.ps.valid = true) (h1 : c.ps.d = 1)
+    (h2 : c.pe.d = dim c.pe.y c.pe.m) :
+    duration .month c = ((monthToId c.pe - monthToId c.ps + 1 : Int) : Rat) :=
+  periodLength_month_aligned c.period hv1 h1 h2
+
+/-- so for month-aligned cells "equal period lengths" (the clause of `is_semi_regular`) is "equally many calendar
+months" -/
+theorem equalLengths_month_aligned (t : List Cell)
+    (ha : ∀ c ∈ t, c.ps.valid = true ∧ c.ps.d = 1 ∧ c.pe.d = dim c.pe.y c.pe.m) :
+    equalLengths t .month = true ↔
+      ∀ a ∈ t, ∀ b ∈ t, monthToId a.pe - monthToId a.ps = monthToId b.pe - monthToId b.ps := by
+  simp only [equalLengths, List.all_eq_true, beq_iff_eq]
+  constructor
+  · intro h a hA b hB
+    have := h a hA b hB
+    rw [duration_month_aligned a (ha a hA).1 (ha a hA).2.1 (ha a hA).2.2,
+      duration_month_aligned b (ha b hB).1 (ha b hB).2.1 (ha b hB).2.2] at this
+    have := Rat.intCast_inj.mp this
+    omega
+  · intro h a hA b hB
+    rw [duration_month_aligned a (ha a hA).1 (ha a hA).2.1 (ha a hA).2.2,
+      duration_month_aligned b (ha b hB).1 (ha b hB).2.1 (ha b hB).2.2, h a hA b hB]
+
+/-! ### 13. more non-vacuity: a regular triangle with a resolution; details that are shared / not shared -/
+
+private theorem exT_periodMonthGaps : periodMonthGaps exT = [12, 12] := by
+  unfold periodMonthGaps gapsOf
+  have : (periodBoundaries exT).eraseDups = [600, 612, 624] := by decide
+  simp only [if_true, this]
+  rw [List.mergeSort_of_pairwise (by decide)]
+  decide
+
+/-- `exT` (two yearly periods) has period resolution 12 -/
+theorem exT_periodResolution : Triangle.periodResolution exT = .ok (some 12) := by
+  rw [periodResolution_eq, exT_periodMonthGaps, if_neg (by decide)]
+  rfl
+
+/-- `exT` is regular (hence semi-regular and disjoint) in months -/
+theorem exT_regular : Triangle.isRegular exT (some .month) = .ok true := by
+  rw [isRegular_iff_const_spacing exT .month (by decide)]
+  congr 1
+  decide +kernel
+
+def exMdA : Metadata :=
+  { country := some "US", details := [("coverage", .str "BI"), ("lob", .str "auto")],
+    lossDetails := [("peril", .str "wind")] }
+def exMdB : Metadata :=
+  { country := some "US", currency := some "USD", details := [("coverage", .str "PD"), ("lob", .str "auto")] }
+
+/-- two slices whose details share `lob` and differ in `coverage`; only one has a loss detail / a currency -/
+def exD : List Cell :=
+  [ { ps := ⟨2020, 1, 1⟩, pe := ⟨2020, 12, 31⟩, ev := ⟨2020, 12, 31⟩, values := [("paid_loss", .int 1)], md := exMdA },
+    { ps := ⟨2020, 1, 1⟩, pe := ⟨2020, 12, 31⟩, ev := ⟨2020, 12, 31⟩, values := [("paid_loss", .int 2)], md := exMdB } ]
+
+private theorem exD_metadata : Triangle.metadata exD = [exMdA, exMdB] := by
+  unfold Triangle.metadata
+  have : metasOf exD = [exMdA, exMdB] := by decide
+  rw [this]
+  exact List.mergeSort_of_pairwise (by decide +kernel)
+
+/-- non-vacuity of the details clauses: the hypotheses hold, the shared item `lob` (and the shared attributes) are
+kept, `coverage`, `peril` and `currency` are not -/
+theorem exD_common :
+    (∀ c ∈ exD, c.md.Canon) ∧
+    Triangle.commonMetadata exD =
+      .ok { country := some "US", details := [("lob", .str "auto")] } := by
+  refine ⟨by decide, ?_⟩
+  unfold Triangle.commonMetadata
+  rw [exD_metadata]
+  rfl
+
+/-- … and its differences carry exactly the rest and recombine (an instance of `recombine_diff`) -/
+theorem exD_differences :
+    Triangle.metadataDifferences exD = .ok
+      [ { riskBasis := none, details := [("coverage", .str "BI")], lossDetails := [("peril", .str "wind")] },
+        { riskBasis := none, currency := some "USD", details := [("coverage", .str "PD")] } ] := by
+  rw [metadataDifferences_eq_map exD_common.2, exD_metadata]
+  rfl
+
+/-- Spec bridge for `evaluation_date` (the inline predicate of the driver: present in the cells, no later one) -/
+theorem spec_evaluationDate {t : List Cell} {d : Date} (h : Triangle.evaluationDate t = .ok d) :
+    (t.any (·.ev == d) && t.all (·.ev ≤ d)) = true := by
+  obtain ⟨h0, h1⟩ := evaluationDate_spec t
+  have ht : t ≠ [] := by
+    intro e; rw [h0 e] at h; cases h
+  obtain ⟨d', hd', ⟨c, hc, hcd⟩, hle⟩ := h1 ht
+  rw [hd'] at h; cases h
+  simp only [Bool.and_eq_true, List.any_eq_true, List.all_eq_true, beq_iff_eq, decide_eq_true_eq]
+  exact ⟨⟨c, hc, hcd⟩, hle⟩
+
+private theorem exT_evalMonthGaps : evalMonthGaps exT = [12] := by
+  unfold evalMonthGaps gapsOf
+  have : ((exT.map (·.ev)).eraseDups.map monthToId) = [611, 623] := by decide
+  simp only [Bool.false_eq_true, if_false, this]
+  rw [List.mergeSort_of_pairwise (by decide)]
+  decide
+
+/-- `exT` (evaluated at two consecutive year ends) has evaluation-date resolution 12 -/
+theorem exT_evalDateResolution : Triangle.evalDateResolution exT = .ok (some 12) := by
+  rw [evalDateResolution_eq, exT_evalMonthGaps]
+  rfl
+
+/-! ### 14. eval_date_resolution against the literal words; ascending gaps -/
+
+/-- **the gaps between DISTINCT evaluation months, from the cells** (the literal reading of "between evaluation
+months"): distinct month ids of the evaluation dates, ascending, consecutive differences -/
+def evalDistinctMonthGaps (t : List Cell) : List Int := gapsOf ((t.map (·.ev)).map monthToId) true
+
+theorem evalMonthGaps_divisors (t : List Cell) (d : Int) :
+    (∀ g ∈ evalMonthGaps t, d ∣ g) ↔ (∀ g ∈ evalDistinctMonthGaps t, d ∣ g) := by
+  unfold evalMonthGaps evalDistinctMonthGaps gapsOf
+  simp only [Bool.false_eq_true, if_false, if_true]
+  rw [← diffs_eq_zip, ← diffs_eq_zip, dvd_diffs_iff, dvd_diffs_iff]
+  have hm : ∀ x, x ∈ ((t.map (·.ev)).eraseDups.map monthToId).mergeSort (fun a b => decide (a ≤ b)) ↔
+      x ∈ (((t.map (·.ev)).map monthToId).eraseDups).mergeSort (fun a b => decide (a ≤ b)) := by
+    intro x
+    rw [(List.mergeSort_perm _ _).mem_iff, (List.mergeSort_perm _ _).mem_iff, List.mem_eraseDups]
+    simp only [List.mem_map, List.mem_eraseDups]
+  constructor
+  · intro h a ha b hb; exact h a ((hm a).mpr ha) b ((hm b).mpr hb)
+  · intro h a ha b hb; exact h a ((hm a).mp ha) b ((hm b).mp hb)
+
+/-- **outside the one-month quirk the words hold literally**: `eval_date_resolution` divides every gap between
+DISTINCT evaluation months and every common divisor of those gaps divides it; when the evaluation dates span at
+least two calendar months it is positive and the LARGEST month count dividing every such gap. (Gaps of 0 from two
+dates in one month never change the common divisors; they only turn `None` into 0 when there is a single month.) -/
+theorem evalDateResolution_distinct_months {t : List Cell} {r : Int}
+    (h : Triangle.evalDateResolution t = .ok (some r)) :
+    (∀ g ∈ evalDistinctMonthGaps t, r ∣ g) ∧
+    (∀ d : Int, (∀ g ∈ evalDistinctMonthGaps t, d ∣ g) → d ∣ r) ∧
+    ((∃ a ∈ t, ∃ b ∈ t, monthToId a.ev ≠ monthToId b.ev) →
+      0 < r ∧ ∀ d : Int, (∀ g ∈ evalDistinctMonthGaps t, d ∣ g) → d ≤ r) := by
+  obtain ⟨h0, h1, h2⟩ := evalDateResolution_spec h
+  have h1' := (evalMonthGaps_divisors t r).mp h1
+  have h2' : ∀ d : Int, (∀ g ∈ evalDistinctMonthGaps t, d ∣ g) → d ∣ r :=
+    fun d hd => h2 d ((evalMonthGaps_divisors t d).mpr hd)
+  refine ⟨h1', h2', ?_⟩
+  rintro ⟨a, ha, b, hb, hab⟩
+  have hpos : 0 < r := by
+    -- some gap between distinct months is positive, and `r` divides it
+    have hL : ∀ x, x ∈ (((t.map (·.ev)).map monthToId).eraseDups).mergeSort (fun a b => decide (a ≤ b)) ↔
+        ∃ c ∈ t, monthToId c.ev = x := by
+      intro x
+      rw [(List.mergeSort_perm _ _).mem_iff, List.mem_eraseDups]
+      simp only [List.mem_map]
+      constructor
+      · rintro ⟨_, ⟨c, hc, rfl⟩, rfl⟩; exact ⟨c, hc, rfl⟩
+      · rintro ⟨c, hc, rfl⟩; exact ⟨_, ⟨c, hc, rfl⟩, rfl⟩
+    have hlt : ((((t.map (·.ev)).map monthToId).eraseDups).mergeSort (fun a b => decide (a ≤ b))).Pairwise (· < ·) :=
+      sorted_nodup_int_lt (sorted_int_mergeSort' _) ((List.mergeSort_perm _ _).nodup_iff.mpr (nodup_eraseDups _))
+    have hlen := two_le_length_of_mem_ne ((hL _).mpr ⟨a, ha, rfl⟩) ((hL _).mpr ⟨b, hb, rfl⟩) hab
+    have hgaps : evalDistinctMonthGaps t =
+        diffs ((((t.map (·.ev)).map monthToId).eraseDups).mergeSort (fun a b => decide (a ≤ b))) := by
+      unfold evalDistinctMonthGaps gapsOf; simp only [if_true]; rfl
+    have hne : (evalDistinctMonthGaps t).length ≠ 0 := by rw [hgaps, diffs_length]; omega
+    cases hl : evalDistinctMonthGaps t with
+    | nil => rw [hl] at hne; simp at hne
+    | cons g gs =>
+      have hg0 : 0 < g := diffs_pos hlt g (by rw [← hgaps, hl]; simp)
+      have hd := h1' g (by rw [hl]; simp)
+      rcases Int.lt_or_eq_of_le h0 with h' | h'
+      · exact h'
+      · rw [← h'] at hd
+        have := Int.zero_dvd.mp hd
+        omega
+  exact ⟨hpos, fun d hd => Int.le_of_dvd hpos (h2' d hd)⟩
+
+/-- the gaps are strictly ascending (by their first day) on a disjoint triangle -/
+theorem experienceGaps_ascending {t : List Cell} (hv : ProperCells t) (hd : Triangle.isDisjoint t = true) :
+    (Triangle.experienceGaps t).Pairwise (fun g g' => g.1 < g'.1) := by
+  obtain ⟨hvp, hp⟩ := periods_proper_apart hv hd
+  rw [experienceGaps_eq]
+  exact gaps_ascending hvp hp
+
+/-- the bridge in exactly the form the driver evaluates (`Drv/C13.lean`: `!disjoint t || gapsSpec t out`) -/
+theorem spec_gapsSpec_driver {t : List Cell} (hv : ProperCells t) :
+    (!disjoint t || gapsSpec t (Triangle.experienceGaps t)) = true := by
+  cases hd : disjoint t with
+  | false => rfl
+  | true =>
+    have : Triangle.isDisjoint t = true := by
+      rw [isDisjoint_eq_spec t (fun c hc => (hv c hc).2.2)]; exact hd
+    simp [spec_gapsSpec hv this]
+
+/-- **an inverted range is reported exactly when the triangle is not disjoint** (proper cells): on a disjoint
+triangle every gap has `start ≤ end`; otherwise some reported "gap" has `end < start` -/
+theorem experienceGaps_inverted_iff {t : List Cell} (hv : ProperCells t) :
+    (∃ g ∈ Triangle.experienceGaps t, g.2 < g.1) ↔ Triangle.isDisjoint t = false := by
+  constructor
+  · rintro ⟨g, hg, hlt⟩
+    cases hd : Triangle.isDisjoint t with
+    | false => rfl
+    | true =>
+      have := (experienceGaps_sound hv hd hg).1
+      exact absurd this (Date.not_le.mpr hlt)
+  · intro hd
+    unfold Triangle.isDisjoint at hd
+    split at hd
+    · cases hd
+    · rw [← Bool.not_eq_true, List.all_eq_true] at hd
+      have : ∃ pq ∈ adjacentPairs (Triangle.periods t), pq.2.1 ≤ pq.1.2 := by
+        apply Classical.byContradiction
+        intro hcon
+        apply hd
+        intro pq hpq
+        obtain ⟨prev, nxt⟩ := pq
+        simp only [Bool.not_eq_true', decide_eq_false_iff_not]
+        intro hle
+        exact hcon ⟨(prev, nxt), hpq, hle⟩
+      obtain ⟨pq, hpq, hov⟩ := this
+      obtain ⟨h1, h2⟩ := experienceGaps_inverted_of_overlap hpq hov
+      exact ⟨_, h1, h2⟩
 
 end Bermuda.Properties.C13
